@@ -16,7 +16,8 @@ RULE = ("DIP texts with 4 context nodes and 1-2 constrained nodes (float with un
         "value or typed DIP value in another unit) carrying a random subset of {options per line, options list, !condition, !format, dimension bounds, declaration "
         "only}; values on / within 0.4e-6 of / 3e-6 off / far off each boundary, int nodes against non-integer bounds written directly or arising "
         "from a unit conversion, node reference on either side of the comparison; conditions that use {?} two or three times against different partners (another typed "
-        "node in another unit, a literal with unit, a unit-less literal); int options that are integers of a finer unit but not of the node's unit; "
+        "node in another unit, a literal with unit, a unit-less literal); int options that are integers of a finer unit but not of the node's unit; option lists in which the same written number recurs "
+        "with different units (1 s / 1 min / 1 h), the value being a later one; "
         "formats that accept / reject the empty text; options and bounds in other units of the same dimension (custom "
         "$units included); array values of lower, equal and higher rank than declared, given in the definition, a modification or a sliced "
         "reference; the constrained node is defined in place, or in a group and imported from a local path ({?defs.*}, {?defs.q}) or from a remote "
@@ -221,11 +222,25 @@ def gen_target(rng, name, custom, imported):
             t.mods.append("%s %s" % (fnum(mv), u2))
             t.final = conv_real(mv, u2, t.unit)
             t.mod_vals.append(t.final)
+        # a class of its own: options in which the same written number recurs with different units (1 s / 1 min / 1 h);
+        # the value is mostly one of the later ones
+        same_num = (not imported) and rng.random() < 0.12
+        if same_num:
+            N = rng.choice(c18.NUMS)
+            ous = rng.sample(units, rng.choice([2, 3]))
+            uj = ous[rng.randrange(1, len(ous))] if rng.random() < 0.8 else rng.choice(units)
+            t.mods.append("%s %s" % (N, uj))
+            t.final = conv_real(float(N), uj, t.unit)
+            t.mod_vals.append(t.final)
+            form = rng.random() < 0.5
+            for u in ous:
+                t.lines.append(("  = %s %s" if form else "  !options [%s] %s") % (N, u))
+                t.options.append(["num", float(N), u])
         ref = t.initial if imported else (t.final if t.final is not None else 1.0)
         # a class of its own: the only constraint is an == / != whose operand equals the value within the tolerance
         # but not exactly (another unit, or 4e-7 beside it)
         tol_case = (not imported) and t.final is not None and rng.random() < 0.2
-        if rng.random() < 0.55 and not tol_case:
+        if rng.random() < 0.55 and not tol_case and not same_num:
             n = rng.randint(1, 3)
             hit = rng.random() < (0.9 if imported else 0.7)
             vals = []
@@ -266,18 +281,30 @@ def gen_target(rng, name, custom, imported):
                 t.cond_ast = multi_cond(rng, ref, t.unit, units, "k")
     elif t.kind == "int":
         t.unit = rng.choice([None, None, "m", "cm", "km"] + (["[x]"] if custom else []))
+        same_num = (not imported) and rng.random() < 0.12
+        if same_num:
+            t.unit = rng.choice(["cm", "m"])
         us = " " + t.unit if t.unit else ""
         v = rng.randint(1, 9)
+        if same_num:
+            ub, f = {"cm": ("m", 100), "m": ("km", 1000)}[t.unit]
+            N = rng.randint(1, 5)
+            v = N * f if rng.random() < 0.8 else N * f + 1
         t.lines.append("%s int = %d%s" % (name, v, us))
         t.decl, t.rhs0 = "%s int%s" % (name, us), "%d%s" % (v, us)
         t.initial = t.final = v
-        for _ in range(rng.choice([0, 0, 1, 2])):
+        if same_num:
+            form = rng.random() < 0.5
+            for u in (t.unit, ub):
+                t.lines.append(("  = %d %s" if form else "  !options [%d] %s") % (N, u))
+                t.options.append(["num", float(N), u])
+        for _ in range(rng.choice([0, 0, 1, 2]) if not same_num else 0):
             v2 = max(1, v + rng.choice([0, 1, -1, 2])) if imported else rng.randint(1, 9)
             t.mods.append("%d%s" % (v2, us))
             t.final = v2
             t.mod_vals.append(v2)
         ref = t.initial if imported else t.final
-        if rng.random() < 0.55:
+        if rng.random() < 0.55 and not same_num:
             # written as integers of a finer unit: in the node's unit they may lie between the integers (90 s = 1.5 min)
             finer = [u for u in (["m", "cm", "mm"] if t.unit in ("m", "cm", "km", "[x]") else []) if t.unit and KMAP[u] <= KMAP[t.unit]]
             u2 = rng.choice(finer) if (finer and rng.random() < 0.7) else t.unit
